@@ -83,7 +83,11 @@ def _small_worker(args):
     for name, g, strict in grams:
         ins = gen.inputs_for(rng, g, 3, 8, 10)
         rng.shuffle(ins)
-        for w in ins[:8]:
+        ins = ins[:8]
+        if any(recx.ERR in r.rhs for r in g.rules) and g.terms:
+            have = set(tuple(w) for w in ins)
+            ins += [w for w in recx.reparse_inputs(rng, g, oracle.Ref(g), 16) if tuple(w) not in have]
+        for w in ins:
             base = dict(one=rng.randrange(2), cost=rng.randrange(2), rec=rng.randrange(2), match=rng.choice([1, 2, 3]))
             cfgs = [dict(base, la=la) for la in LEVELS]
             if len(w) <= 6:
